@@ -34,7 +34,7 @@ Proof.
   replace (n - (length SS - o)) with 0 by lia. cbn [firstn]. rewrite app_nil_r. reflexivity.
 Qed.
 
-Definition part_in (SS : list byte) (p : fpart) : Prop := fp_len p = 0 \/ fp_off p + fp_len p <= length SS.
+Definition part_in (SS : list byte) (p : fpart) : Prop := fp_off p + fp_len p <= length SS.
 Definition parts_in (SS : list byte) (ps : list fpart) : Prop := Forall (part_in SS) ps.
 Lemma slice_0 (SS : list byte) o : slice SS o 0 = [].
 Proof. reflexivity. Qed.
@@ -43,7 +43,7 @@ Lemma parts_bytes_grow SS T name ps : parts_in SS ps -> parts_bytes (SS ++ T) na
 Proof.
   induction ps as [|p r IH]; intros H; cbn [parts_bytes]; [reflexivity|].
   inversion H; subst. rewrite IH by assumption. destruct (String.eqb (fp_name p) name); [|reflexivity].
-  match goal with H : part_in _ _ |- _ => destruct H as [H0|H0] end; [rewrite H0, !slice_0; reflexivity|].
+  unfold part_in in *.
   rewrite slice_app_l by assumption. reflexivity.
 Qed.
 Lemma parts_in_grow SS T ps : parts_in SS ps -> parts_in (SS ++ T) ps.
@@ -68,18 +68,20 @@ Proof. unfold slice. rewrite firstn_add, my_skipn_skipn. reflexivity. Qed.
 
 (* one file's segments *)
 Lemma stream_segs_ok name : forall l bl ps sl BD,
-  StoLocal blks l -> (forall b t, ~ In (Mem b t) l) ->
+  StoLocal blks l -> (forall b t, ~ In (Mem b t) l) -> Forall (fun s => 0 < slen s) l ->
   SInv bl ps sl BD ->
   let '(bl', ps', sl') := stream_segs tab blks name l bl ps sl in
   exists BD', SInv bl' ps' sl' BD' /\ (exists T, List.concat BD' = List.concat BD ++ T) /\
     parts_bytes (List.concat BD') name ps' = parts_bytes (List.concat BD) name ps ++ flat_map sbytes l /\
     (forall other, other <> name -> parts_bytes (List.concat BD') other ps' = parts_bytes (List.concat BD) other ps).
 Proof.
-  induction l as [|s l IH]; intros bl ps sl BD HS HN HI; cbn [stream_segs].
+  induction l as [|s l IH]; intros bl ps sl BD HS HN HZ HI; cbn [stream_segs].
   - exists BD. split; [exact HI|]. split; [exists []; rewrite app_nil_r; reflexivity|]. cbn. rewrite app_nil_r. auto.
   - destruct s as [b t|b loc bsz boff]; [exfalso; apply (HN b t); left; reflexivity|].
     assert (HSl : StoLocal blks l) by (eapply StoLocal_tail; exact HS).
     assert (HNl : forall b t, ~ In (Mem b t) l) by (intros b0 t0 H0; apply (HN b0 t0); right; exact H0).
+    assert (HZl : Forall (fun s => 0 < slen s) l) by (inversion HZ; assumption).
+    assert (Hbpos : 0 < length b) by (inversion HZ; subst; assumption).
     destruct (HS b loc bsz boff (or_introl eq_refl)) as (blk & Hnth & Hbsz & Hsl).
     assert (Hnd : nth loc blks [] = blk) by (apply nth_error_nth; exact Hnth).
     assert (Hin : In blk blks) by (eapply nth_error_In; exact Hnth).
@@ -130,10 +132,10 @@ Proof.
               end) as [blocks1 slen1]. inversion Eb; subst blocks1 slen1. clear Eb.
     set (S1 := List.concat BD1) in *.
     (* the bytes of this segment in the stream *)
-    assert (Hb : slice S1 (sl1 + boff) (length b) = b /\ (length b = 0 \/ boff + length b <= bsz)).
+    assert (Hb : slice S1 (sl1 + boff) (length b) = b /\ boff + length b <= bsz).
     { unfold is_slice in Hsl. assert (Hle : length b <= length blk - boff).
       { rewrite Hsl at 1. rewrite firstn_length, skipn_length. lia. }
-      split; [|destruct b; [left; reflexivity|right; cbn [length] in *; lia]]. rewrite Hsl at 2. rewrite <- Hslice. unfold slice.
+      split; [|lia]. rewrite Hsl at 2. rewrite <- Hslice. unfold slice.
       rewrite skipn_firstn_comm', my_skipn_skipn. rewrite firstn_firstn_le by lia. reflexivity. }
     destruct Hb as [Hb Hbo].
     assert (HP1 : parts_in S1 ps) by (rewrite HT1; apply parts_in_grow; exact I4).
@@ -175,7 +177,7 @@ Proof.
     destruct Hparts as (ps1 & Eps1 & HPin1 & HPb1 & HPo1). rewrite <- Eps1.
     assert (HI1 : SInv (map (loc_text tab) BD1) ps1 (sl1 + bsz) BD1).
     { constructor; [reflexivity|exact HinBD1|exact Hsl1|exact HPin1]. }
-    specialize (IH (map (loc_text tab) BD1) ps1 (sl1 + bsz) BD1 HSl HNl HI1).
+    specialize (IH (map (loc_text tab) BD1) ps1 (sl1 + bsz) BD1 HSl HNl HZl HI1).
     destruct (stream_segs tab blks name l (map (loc_text tab) BD1) ps1 (sl1 + bsz)) as [[bl' ps'] sl'].
     destruct IH as (BD' & HI' & (T' & HT') & HB' & HO').
     exists BD'. split; [exact HI'|]. split; [exists (T1 ++ T'); rewrite HT'; fold S1; rewrite HT1, app_assoc; reflexivity|].
